@@ -420,6 +420,18 @@ func (g *Gen) parScenarios(p *ps.Program) []*ps.Scenario {
 		sc.Cancel = fmt.Sprintf("in:%d", g.R.Intn(len(p.PTasks)))
 		out = append(out, sc)
 	}
+	// every element of a slice panics: all panic value classes at once, several elements with the same
+	// class (two recovered values of one uncomparable type meet in one directive)
+	for _, s := range p.Slices {
+		if s.Len >= 6 && s.Len <= 17 {
+			sc := base()
+			for i := 0; i < s.Len; i++ {
+				sc.Sl = append(sc.Sl, ps.ElemFail{C: s.S, I: i, Kind: "panic"})
+			}
+			out = append(out, sc)
+			break
+		}
+	}
 	// an element of a slice with an End function cancels the context (all functions succeed): the End
 	// function depends on that element and must not start
 	for _, s := range p.Slices {
